@@ -1,7 +1,7 @@
 package p9
 
 // Replays of the known findings that are recorded, not repaired
-// (known_findings.txt): F2, F9, F10 (F5 was repaired later; its test now passes and is registered as replay/f5.json). Each test FAILS on the current tree -
+// (known_findings.txt): F9, F10 (F2 and F5 were repaired later; their tests now pass and are registered as replay/f2.json and replay/f5.json). Each test FAILS on the current tree -
 // that is the demonstration of the defect on the real code. They are not part
 // of any check's pass/fail decision (the checks print KNOWN-FINDING for the
 // listed obligations); run one with
@@ -26,6 +26,7 @@ type pfile struct {
 	data    []byte
 	g       *gates
 	walkEnter chan struct{}
+	myCloses  int32 // Close calls on this very File
 }
 
 type gates struct {
@@ -66,7 +67,11 @@ func (f *pfile) SetAttr(SetAttrMask, SetAttr) error {
 	}
 	return nil
 }
-func (f *pfile) Close() error                       { atomic.AddInt32(f.closes, 1); return nil }
+func (f *pfile) Close() error {
+	atomic.AddInt32(f.closes, 1)
+	atomic.AddInt32(&f.myCloses, 1)
+	return nil
+}
 func (f *pfile) Open(OpenFlags) (QID, uint32, error) {
 	if f.g != nil && f.g.openGate != nil {
 		atomic.AddInt32(&f.g.openEntered, 1)
@@ -107,6 +112,7 @@ func (f *pfile) Readlink() (string, error)            { return "", linux.ENOSYS 
 func (f *pfile) Renamed(File, string)                 {}
 
 type pattacher struct {
+	root    *pfile // the File handed out by Attach
 	closes  int32
 	lockHit int32
 	g       *gates
@@ -117,7 +123,8 @@ func (a *pattacher) Attach() (File, error) {
 	if g == nil {
 		g = &gates{}
 	}
-	return &pfile{id: 1, closes: &a.closes, lockHit: &a.lockHit, g: g}, nil
+	a.root = &pfile{id: 1, closes: &a.closes, lockHit: &a.lockHit, g: g}
+	return a.root, nil
 }
 
 func setup(t *testing.T, msize uint32) (*pattacher, *Client, net.Conn) {
@@ -144,16 +151,17 @@ func setupG(t *testing.T, msize uint32, g *gates) (*pattacher, *Client, net.Conn
 func TestKnownF2XattrSharesFile(t *testing.T) {
 	a, c, _ := setup(t, 8192)
 	root, _ := c.Attach("")
-	before := atomic.LoadInt32(&a.closes)
 	if _, err := root.GetXattr("user.a"); err != nil {
 		t.Fatalf("GetXattr: %v", err)
 	}
-	if n := atomic.LoadInt32(&a.closes) - before; n != 0 {
+	// GetXattr walked an xattr fid and clunked it again; the root fid is
+	// still open, so the File bound to it must not have been closed.
+	if n := atomic.LoadInt32(&a.root.myCloses); n != 0 {
 		t.Errorf("backend Close was called %d time(s) on the File of a fid that is still open (GetXattr clunked its xattr fid)", n)
 	}
 	root.Close()
-	if n := atomic.LoadInt32(&a.closes); n != 1 {
-		t.Errorf("one File was handed out, Close was called %d times", n)
+	if n := atomic.LoadInt32(&a.root.myCloses); n != 1 {
+		t.Errorf("the root File was closed %d times, want exactly once", n)
 	}
 }
 
